@@ -389,6 +389,19 @@ func c20Gen(tier string, rng *rand.Rand, emit func(string)) map[string]interface
 		out("trampoline_random", fmt.Sprintf("tr %d %d %d: %d,%d", 1+rng.Intn(40), rng.Intn(45)-2, rng.Intn(2), rng.Intn(3), rng.Intn(3)))
 	}
 
+	// long runs: "iterates its step until done or error" has no bound — a hidden iteration cap (stack-depth style limits
+	// such as 1 000, 10 000, 65 536) or a counter that wraps shows only far beyond the 40 iterations above; the model's
+	// fuel is 100 000.  (The Spec the judge evaluates on a mismatch recomputes every iterate from the start — quadratic —
+	// so the lengths stay moderate: 10 001 iterations cost the judge ~8 s, 32 769 ~80 s, and only when a case deviates.)
+	longRuns := []int{257, 1001, 4097, 10001}
+	if thorough {
+		longRuns = append(longRuns, 20011, 32769)
+	}
+	for _, kd := range longRuns {
+		out("trampoline_long", fmt.Sprintf("tr %d -1 0: 0,5", kd))
+		out("trampoline_long", fmt.Sprintf("tr %d %d %d: 0,1,2", kd, kd-2, rng.Intn(2)))
+	}
+
 	// ---- CurryDef scripts
 	curryOps := []string{"c1", "c2", "c0", "d", "r", "i"}
 	concrete := func(ops []string) string {
@@ -461,6 +474,15 @@ func c20Gen(tier string, rng *rand.Rand, emit func(string)) map[string]interface
 						out("curry_stress", fmt.Sprintf("cs %d %d %d %d %d", g, m, a, n, y))
 					}
 				}
+			}
+		}
+	}
+
+	// inversion probe (y = 3): the first invocation lingers; done at the second Call / never / beyond
+	for _, g := range stressG {
+		for _, a := range []int{1, 3} {
+			for _, n := range []int{2 * a, -1, g*20*a + 5} {
+				out("curry_stress", fmt.Sprintf("cs %d 20 %d %d 3", g, a, n))
 			}
 		}
 	}
@@ -609,7 +631,7 @@ func c20Gen(tier string, rng *rand.Rand, emit func(string)) map[string]interface
 		"scopes": map[string]interface{}{
 			"compose_pipe":  "all lists of length 1..6 over 4 pairwise non-commuting functions x -> 4x+i (every list gives a distinct output) x Compose/Pipe(+Interface); length 1.." + strconv.Itoa(mixLen) + " over 8 mixed list functions; every regrouping split of lists of length 2..5",
 			"adapters":      "MakeVariadicParam1..6 x 0..8 args, MakeVariadicReturn1..6, CurryParam1..6/ForSlice1 x 0..4 args, MakeNumericReturn* + random",
-			"trampoline":    "done-at 1..8 x error-at -1..8 x error-with-done x 5 inputs + random up to 40 iterations",
+			"trampoline":    "done-at 1..8 x error-at -1..8 x error-with-done x 5 inputs + random up to 40 iterations + long runs (257..10001 iterations, thorough ..32769; done / late error)",
 			"curry":         "all scripts of length 1.." + strconv.Itoa(curryLen) + " over Call(1 arg)/Call(2 args)/Call()/MarkDone/Result/IsDone x 6 done-thresholds; random scripts up to 40 ops; concurrent stress",
 			"match":         fmt.Sprintf("%d probe values x every ordered subset of the 5 pattern kinds (326) x tuned/untuned parameter masks; random lists up to 8 patterns", len(c20Probes)),
 			"comptype":      fmt.Sprintf("%d types x all object lists of length 0..%d over %d atoms x NewCompData/Matches/MatchCompType", len(c20CompTypes), objLen, len(c20ObjAtoms)),
